@@ -87,12 +87,20 @@ pub enum Op {
     TransformPlainToNtt,
     ModSwitchPlainNext,
     KeySwitch,
+    // fast-path shapes: the operation has nothing to do, the operand checks must still run
+    RelinearizeSize2,
+    ModSwitchToSame,
+    AddManySingle,
+    MultiplyManySingle,
+    RescaleToSame,
+    ModSwitchPlainToSame,
 }
 
-const OPS: [Op; 24] = [
+const OPS: [Op; 30] = [
     Op::Negate, Op::Add, Op::Sub, Op::Multiply, Op::Square, Op::Relinearize, Op::ModSwitchNext, Op::ModSwitchTo, Op::Transform, Op::RescaleNext,
     Op::ApplyGalois, Op::Rotate, Op::Conjugate, Op::AddMany, Op::AddPlain, Op::SubPlain, Op::MultiplyPlain, Op::Decrypt, Op::NoiseBudget, Op::Encrypt,
-    Op::EncryptSymmetric, Op::TransformPlainToNtt, Op::ModSwitchPlainNext, Op::KeySwitch,
+    Op::EncryptSymmetric, Op::TransformPlainToNtt, Op::ModSwitchPlainNext, Op::KeySwitch, Op::RelinearizeSize2, Op::ModSwitchToSame, Op::AddManySingle,
+    Op::MultiplyManySingle, Op::RescaleToSame, Op::ModSwitchPlainToSame,
 ];
 
 #[derive(Serialize, Deserialize, Clone, Debug)]
@@ -360,6 +368,31 @@ fn run(w: &World, op: Op, a: &Ciphertext, b: &Ciphertext, a3: &Ciphertext, p: &P
             r(&|| drop(ev.mod_switch_to_next_plain_new(p)))
         }
         Op::KeySwitch => r(&|| drop(ev.apply_keyswitching_new(a, ksk))),
+        Op::RelinearizeSize2 => r(&|| drop(ev.relinearize_new(a, rk))),
+        Op::ModSwitchToSame => r(&|| drop(ev.mod_switch_to_new(a, w.a.parms_id()))),
+        Op::AddManySingle => r(&|| drop(ev.add_many_new(std::slice::from_ref(a)))),
+        Op::MultiplyManySingle => {
+            if ckks {
+                return None;
+            }
+            r(&|| {
+                let mut d = Ciphertext::new();
+                ev.multiply_many(std::slice::from_ref(a), rk, &mut d);
+            })
+        }
+        Op::ModSwitchPlainToSame => {
+            if !p.is_ntt_form() {
+                return None;
+            }
+            let id = *p.parms_id();
+            r(&|| drop(ev.mod_switch_plain_to_new(p, &id)))
+        }
+        Op::RescaleToSame => {
+            if !ckks {
+                return None;
+            }
+            r(&|| drop(ev.rescale_to_new(a, w.a.parms_id())))
+        }
     })
 }
 
@@ -375,8 +408,10 @@ fn uses(op: Op) -> (bool, bool, bool, bool) {
     match op {
         Op::Add | Op::Sub | Op::Multiply | Op::AddMany => (true, true, false, false),
         Op::AddPlain | Op::SubPlain | Op::MultiplyPlain => (true, false, true, false),
-        Op::Encrypt | Op::EncryptSymmetric | Op::TransformPlainToNtt | Op::ModSwitchPlainNext => (false, false, true, false),
-        Op::Relinearize | Op::ApplyGalois | Op::Rotate | Op::Conjugate | Op::KeySwitch => (true, false, false, true),
+        Op::Encrypt | Op::EncryptSymmetric | Op::TransformPlainToNtt | Op::ModSwitchPlainNext | Op::ModSwitchPlainToSame => (false, false, true, false),
+        Op::Relinearize | Op::ApplyGalois | Op::Rotate | Op::Conjugate | Op::KeySwitch | Op::RelinearizeSize2 => (true, false, false, true),
+        // with a single operand multiply_many never touches the keys: only the ciphertext is an operand of that shape
+        Op::MultiplyManySingle => (true, false, false, false),
         _ => (true, false, false, false),
     }
 }
@@ -401,7 +436,7 @@ fn check(c: &CCase, seed: u64) -> CaseOut {
     // plaintext operand in the form the entry point expects
     let plain = match c.op {
         Op::Encrypt | Op::EncryptSymmetric | Op::TransformPlainToNtt => w.plain_coef.clone(),
-        Op::ModSwitchPlainNext => {
+        Op::ModSwitchPlainNext | Op::ModSwitchPlainToSame => {
             if c.spec.scheme == Scheme::CKKS {
                 w.plain.clone()
             } else {
@@ -537,7 +572,7 @@ pub fn sections(cfg: &RunCfg) -> Vec<Box<dyn AnySection>> {
     }
     v.push(E1::new(
         "corruption_matrix",
-        "24 entry points x operand position x 26 single-field corruptions x {BFV, BGV, CKKS} (N=8, four 40-bit primes; thorough adds three more sets)",
+        "30 entry points (incl. 6 nothing-to-do shapes) x operand position x 26 single-field corruptions x {BFV, BGV, CKKS} (N=8, four 40-bit primes; thorough adds three more sets)",
         cases.into_iter(),
         move |c: &CCase| check(c, seed),
     ));
